@@ -270,12 +270,19 @@ def ofAnyF (addr : AddrArg) (version : Option Int) : R (Nat × Nat) :=
       else .error .type_
     | .str s => setImplicitStr s
 
-/-- `EUI.is_iab()` on a receiver of either version: `(self._value >> 24) in IAB.IAB_EUI_VALUES`
-    — the code does not look at the version -/
-def isIabOf (_ver v : Nat) : Bool := isIab v
+/-- `EUI.is_iab()`: the OUI field of the receiver - bits 24.. of an EUI-48, bits 40.. of an EUI-64 -
+    against `IAB.IAB_EUI_VALUES` (repaired code, fix 14211a2; before, bits 24.. whatever the version) -/
+def isIabOf (ver v : Nat) : Bool :=
+  if ver = 48 then isIab v else iabEuiValues.contains (v >>> 40)
 
-/-- `EUI.iab` on a receiver of either version: `IAB(self._value >> 12)` when `is_iab()` -/
-def iabOf (_ver v : Nat) : R (Option Nat) := iab v
+/-- `EUI.iab`: `IAB(self._value >> 12)` for an EUI-48, `IAB(self._value >> 28)` for an EUI-64, when
+    `is_iab()`; None otherwise -/
+def iabOf (ver v : Nat) : R (Option Nat) :=
+  if ver = 48 then iab v
+  else if iabEuiValues.contains (v >>> 40) then do
+    let (i, _) ← splitIabMac (v >>> 28) false
+    pure (some i)
+  else pure none
 
 /-- `EUI.__str__()`: `self._module.int_to_str(self._value, self._dialect)` -/
 def str (d : Dialect) (v : Nat) : R (List Char) := intToStr d v
